@@ -591,7 +591,7 @@ def classify_tool_failure(name, r, img):
                     return K_DAG, "memory exhausted expanding shared sub-directories"
             return None, "memory limit hit (%s)" % err[-200:]
         if "stack-overflow" in err or rc == -11:
-            deep = any(f in err for f in (" in fill_dir ", " in sqfs_dir_tree_destroy ", " in resolve_ids "))
+            deep = any(f in err for f in (" in fill_dir ", " in sqfs_dir_tree_destroy ", " in resolve_ids ", "<empty stack>"))
             g = F.parse_dirs(img, limit=10 ** 6) if deep else None
             depth = F.max_depth(g, next(iter(g))) if g else None          # None: cyclic (then fill_dir must have refused)
             return (K_DEEP if (deep and depth is not None and depth >= 5000) else None), \
